@@ -7,7 +7,7 @@ cd /verif/sim/$mod && go1.26.8 test -tags verif -c -o /verif/.build/$mod.test .
 mkdir -p /verif/.work
 cd /verif
 rm -f /verif/.work/$tst.json*
-VERIF_SEED=$seed VERIF_BUDGET_S=$budget VERIF_OUT=/verif/.work/$tst.json VERIF_REPLAY_DIR=/verif/.work/replays GODEBUG=randautoseed=0 timeout 600 .build/$mod.test -test.run "^$tst\$" -test.count=1 2>&1 | tail -${TAILN:-30}
+VERIF_SEED=$seed VERIF_BUDGET_S=$budget VERIF_OUT=/verif/.work/$tst.json VERIF_REPLAY_DIR=/verif/.work/replays GODEBUG=randautoseed=0,randseednop=0 timeout 600 .build/$mod.test -test.run "^$tst\$" -test.count=1 2>&1 | tail -${TAILN:-30}
 python3 - <<PY
 import json,os
 p='/verif/.work/$tst.json'
